@@ -349,7 +349,10 @@ DEEP = '1+' + '{' * 650 + '1' + '}' * 650 + '+1'
 thread_formula = st.one_of(trees(False, 6).map(gf.render), st.sampled_from(['SUM(1,2,3)*4+A1', '10-3-2', '"a"&"b"&"c"', 'IF(1<2,"x","y")', '{1,2;3,4}', '1+', 'nosuch+1', 'MAX(A1:B2)-MIN(A1:B2)', 'CONCATENATE(v_s,1,2)', 'v_a*v_a-1',
                                                                                      'ROUND(2.5,0)&ROUND(0.125,2)&ROUND(1250.0,-2)', 'ROUND(3.5,0)+ROUND(-2.5,0)', 'TEXT(2.5,"0")&UPPER("x")',
                                                                                      'YEAR(DATE(2019,11,20)+45)&(DATE(2019,11,20)>DATE(2019,1,1))', 'DATE(2020,2,29)-DATE(2019,2,28)', 'v_d+1>v_d', 'DAYS(v_d,DATE(2000,1,1))']))
-thread_case = st.fixed_dictionaries({'f': st.tuples(st.lists(thread_formula, min_size=1, max_size=4), st.lists(thread_formula, min_size=1, max_size=4)).map(list),
+_two_lists = st.tuples(st.lists(thread_formula, min_size=1, max_size=4), st.lists(thread_formula, min_size=1, max_size=4)).map(list)
+# in a third of the cases both threads evaluate the same texts (each on its own parser, with its own bindings), the second thread from the other end: the same formula is in flight twice
+_same_texts = st.lists(thread_formula, min_size=1, max_size=4).map(lambda l: [list(l), list(reversed(l))])
+thread_case = st.fixed_dictionaries({'f': st.one_of(_two_lists, _two_lists, _same_texts),
                                      'quanta': st.lists(st.one_of(st.integers(1, 60), st.integers(1, 400)), min_size=1, max_size=60)})
 
 
@@ -359,6 +362,7 @@ def solo_outcomes(formulas):
 
 
 _SW = {}
+_PAD = [0]
 
 
 MINIMAL_STALL = {'f': [['1+1'], ['2+2']], 'quanta': [60]}
@@ -370,8 +374,16 @@ def check_threads(case):
         # this tree has already shown, in this process, that one evaluation blocks the other: no need to wait STALL_S again for every further example
         raise Violation(_SW['stall'], 'blocked', 'proceeds', case=MINIMAL_STALL)
     want = solo_outcomes(formulas)
+    # the threads meet texts this process has not read before: each formula gets a run of trailing blanks of a length no earlier case used (white space changes
+    # no outcome; a store keyed by formula text, filled by the solo runs or by earlier cases, would otherwise hide what happens when a text is first read by two threads at once)
+    fresh = {}
+    for f in formulas[0] + formulas[1]:
+        if f not in fresh:
+            _PAD[0] += 1
+            fresh[f] = f + ' ' * _PAD[0]
+    formulas_run = [[fresh[f] for f in formulas[0]], [fresh[f] for f in formulas[1]]]
     try:
-        got, sw = run_threads(formulas, quanta)
+        got, sw = run_threads(formulas_run, quanta)
     except Violation as v:
         if v.observed == 'blocked':
             try:
@@ -618,16 +630,17 @@ op_s = st.one_of(
     st.tuples(st.just('on'), st.sampled_from(['callCellValue', 'callRangeValue', 'callVariable', 'callFunction']), st.integers(0, 9)),
     st.tuples(st.just('once'), st.sampled_from(['callCellValue', 'callRangeValue', 'callVariable', 'callFunction']), st.integers(0, 9)),
     st.tuples(st.just('off'), st.sampled_from(['callCellValue', 'callRangeValue', 'callVariable', 'callFunction'])),
-    st.tuples(st.just('parse'), st.sampled_from(['v_only+1', 'ONLYA(1)', 'B2', 'A1:B2', 'SUM(1,2)', 'TRUE', '1+', 'PI()', 'TRUE()+NA()', 'ONLYA()'])),
+    st.tuples(st.just('parse'), st.sampled_from(['v_only+1', 'ONLYA(1)', 'B2', 'A1:B2', 'SUM(1,2)', 'TRUE', '1+', 'PI()', 'TRUE()+NA()', 'ONLYA()', 'v_a+1', 'v_a*2+SUM(1,2)', 'Q9+1'])),      # the last three: texts that fail on A (no v_a there) and succeed on B
     st.tuples(st.just('on_mutating'), st.sampled_from(['callFunction'])),
+    st.tuples(st.just('parse_fresh'), st.integers(1, 10 ** 9)),
     st.tuples(st.just('host_error'), st.sampled_from(['#N/A', '#DIV/0!', '#VALUE!', '#NAME?']), st.sampled_from(['return', 'raise'])),
 ).map(list)
 PROBES = ['v_only', 'v_new', 'v_a', 'TRUE', 'ONLYA(1)', 'MY.FN(1)', 'SUM(1,2)', 'ID(3)', 'B2', 'A1:B2', 'ISBLANK(B2)', 'v_only+ONLYA(2)', 'PI()>3', 'TRUE()', 'IF(TRUE(),1,2)',
-          'NA()', '1/0', '"a"+1', 'IFERROR(NA(),5)', 'ERROR.TYPE(1/0)']
+          'NA()', '1/0', '"a"+1', 'IFERROR(NA(),5)', 'ERROR.TYPE(1/0)', 'v_a+1', 'v_a*2+SUM(1,2)']
 
 
 PROBE_WANT = [(None, '#NAME?'), (None, '#NAME?'), (40, None), (True, None), (None, '#NAME?'), (None, '#NAME?'), (3, None), (None, '#NAME?'), (None, None), (None, None), (True, None), (None, '#NAME?'),
-              (True, None), (True, None), (1, None), (None, '#N/A'), (None, '#DIV/0!'), (None, '#VALUE!'), (5, None), (2, None)]
+              (True, None), (True, None), (1, None), (None, '#N/A'), (None, '#DIV/0!'), (None, '#VALUE!'), (5, None), (2, None), (41, None), (83, None)]
 
 
 def check_bindings(case):
@@ -664,6 +677,13 @@ def check_bindings(case):
             A.parse('IFERROR(HERR(),1)')
         elif op[0] == 'off':
             A.off(op[1])
+        elif op[0] == 'parse_fresh':
+            # a text no parser of this process has read before: it fails on A part-way (no v_a there, unless A has set one), then B reads the same text
+            t = 'v_a*1+%d+SUM(1,2)' % op[1]
+            A.parse(t)
+            g = B.parse(t)
+            if g != {'result': 43 + op[1], 'error': None}:
+                raise Violation('after %r on parser A (the last step evaluated %r there), parser B evaluates the same text to %r instead of %d' % (case['ops'][:step + 1], t, g, 43 + op[1]), g['error'] or enc(g['result']), 43 + op[1])
         else:
             A.parse(op[1])
         for p, w in zip(PROBES, want):
@@ -710,7 +730,7 @@ LAWS = [
              'every outcome equals the value computed from the coordinates *written in the formula* by the reference label parser, and every cell handed to a listener has a label that re-parses to its own coordinates - an oracle that shares no state with the library'),
     Law('binding_isolation', check_bindings, strategy=st.fixed_dictionaries({'ops': st.lists(op_s, min_size=1, max_size=10), 'order': st.sampled_from(['A-first', 'B-first'])}),
         quick=1500, thorough=60000, shards=(8, 16), nontrivial=lambda c: len(c['ops']) >= 2,
-        rule='1-10 registrations on parser A (set_variable incl. TRUE, set_function incl. SUM, on/once/off for the four events, evaluations, a callback that builds an error object of its own): after each, parser B gives the outcomes of an untouched parser for 20 probe formulas and holds none of A\'s variables, functions or listeners'),
+        rule='1-10 registrations on parser A (set_variable incl. TRUE, set_function incl. SUM, on/once/off for the four events, evaluations, a callback that builds an error object of its own): after each, parser B gives the outcomes of an untouched parser for 22 probe formulas and holds none of A\'s variables, functions or listeners'),
 ]
 
 LEVEL_TEXT = 'Hypothesis exploration of re-entrant evaluation (generated interposition points, depth 2, both parsers / same parser, both construction orders) and of thread interleavings under a harness-owned, replayable schedule at Python-line granularity, with solo evaluation as the oracle (a blocked evaluation is told from a slow one and reported); an enumerated law with an operand near the recursion limit of the interpreter; brand-new interpreter processes whose first evaluations are made by several threads at once; free-running thread stress in the thorough tier.'
